@@ -229,8 +229,7 @@ def run(rep, tier, rng):
             if rng.random() < 0.8:
                 i = rng.randrange(4)
                 return ("sym", i), ("name", i)
-            i, j = rng.randrange(4), rng.randrange(4)
-            return ("symexpr", f"{c10.NAMES[i]} + {c10.NAMES[j]}"), ("add", ("name", i), ("name", j))
+            return sym_expr_leaf(al)
         k = rng.choice(["neg", "inv", "add", "sub", "mul", "mul", "scale", "rscale", "div", "normalized", "linv", "rinv"])
         if k in ("neg", "inv", "normalized", "linv", "rinv"):
             p, e = gen_prog(depth - 1, al)
@@ -254,13 +253,32 @@ def run(rep, tier, rng):
             return ("mul", ("num", nk[0], nk[1]), p), ("mul", ("num",) + nk[2], e)
         return ("div", p, ("num", nk[0], nk[1])), ("div", e) + nk[2]
 
+    def sym_expr_leaf(al):
+        """sym('<text>'): an arbitrary expression text as one leaf.  The text may begin with '(' and end with ')'
+        without being one parenthesised group, e.g. '(A + B) * (C + D)'."""
+        nm = lambda: ("name", rng.randrange(4))  # noqa
+        r = rng.random()
+        if r < 0.25:
+            t = ("add", nm(), nm())
+        elif r < 0.6:
+            inner = rng.choice(["add", "sub"]) if al == "AHrr" else "add"
+            outer = rng.choice(["mul", "mul", "sub", "add"]) if al == "AHrr" else rng.choice(["mul", "add"])
+            t = (outer, (inner, nm(), nm()), (inner, nm(), nm()))
+        elif r < 0.8:
+            t = ("mul", ("add", nm(), nm()), nm()) if rng.random() < 0.5 else ("mul", nm(), ("add", nm(), nm()))
+        else:
+            t = c10.Gen(rng, al).gen(2)
+            if t[0] in ("name", "special", "num"):
+                t = ("add", nm(), nm())
+        return ("symexpr", c10.to_text(t, rng)), t
+
     def reshape_prog(p, e):
         if p[0] == "sym":
             i = rng.randrange(4)
             return ("sym", i), ("name", i)
         if p[0] == "symexpr":
-            i, j = rng.randrange(4), rng.randrange(4)
-            return ("symexpr", f"{c10.NAMES[i]} + {c10.NAMES[j]}"), ("add", ("name", i), ("name", j))
+            e2 = c10.Gen(rng, "AVtb").reshape(e)
+            return ("symexpr", c10.to_text(e2, rng)), e2
         if p[0] == "num":
             return p, e
         if p[0] in ("neg", "inv", "normalized", "linv", "rinv"):
